@@ -98,3 +98,20 @@ Theorem C03_bad_member_unique_weight : forall (K : Fld), FldOk K -> forall (M : 
   weighted_residuals K M H Gb G Hv (pre ++ with_weight K M b w' :: post) = v0 M -> w = w'.
 Proof. exact bad_member_unique_weight. Qed.
 Print Assumptions C03_bad_member_unique_weight.
+
+(** THE TOP OF THE CHAIN, on the model that is compared with the implementation on every run: if
+    [verify_chunk] accepts a chunk in a verifying mode — the back end having found the final multiscalar
+    product to be the identity — then the weighted sum of the members' TEXTBOOK residuals is the identity.
+    [member_wf] collects what the guards of verify itself do not establish: the constructor invariants of
+    the statements, the shape of the challenge oracle and y <> 1.  [dec] is point decompression. *)
+From BP Require Import Proofs.TopP.
+Theorem C03_accepted_chunk_means_zero_weighted_residuals : forall (K : Fld), FldOk K -> forall (M : Mod K), ModOk K M ->
+  forall (ofN : N -> K) (dec : N -> M) (H : M) (Gb G Hv : list M) mode ms ws masks sc,
+  mode <> RecoverOnly ->
+  Forall (member_wf K M Gb) ms ->
+  verify_chunk K ofN mode ms ws true = (Ok masks, Some sc) ->
+  forall max_mn, (exists mi, consistency K ms = Some (max_mn, mi)) -> max_mn <= length G -> max_mn <= length Hv ->
+  vadd M (msm (fst sc) (interleaveM K M G Hv)) (msm (snd sc) (flat_map (dyn_of K M) (map (pts_of K M dec) ms) ++ Gb ++ [H])) = v0 M ->
+  weighted_residuals K M H Gb G Hv (to_bs K M ofN dec ms ws) = v0 M.
+Proof. exact accepted_chunk_means_zero_weighted_residuals. Qed.
+Print Assumptions C03_accepted_chunk_means_zero_weighted_residuals.
